@@ -6,6 +6,7 @@ from common import (Infra, go_must_pass, go_test, harness_overlay, read_ndjson, 
                     tlc_must_pass, write_ndjson)
 
 W = 6
+FARPOS = 140   # position of the far bit relative to the base: beyond an empty 64-bit word above the window
 
 
 def run(ctx):
@@ -14,6 +15,20 @@ def run(ctx):
     table = [p for p in res.prints if "op" in p]
     if len(table) < 1000:
         raise Infra("transition table too small: %d" % len(table))
+    # the same window plus one far bit per register (spec/BitmaskFar.tla): the flags become an ordinary element at FARPOS
+    fres = tlc_must_pass(run_tlc(ctx, "BitmaskFar", "BitmaskFarMC.cfg", workers=1, timeout=300), "BitmaskFarMC")
+    ftable = []
+    for p in [p for p in fres.prints if "op" in p]:
+        if not (p["fa"] or p["fb"] or p["fa2"] or p["fb2"]):
+            continue        # (already in the plain table)
+        far = {"SetFar": "Set", "UnsetFar": "Unset", "FlipFar": "Flip", "ExtractFar": "Extract"}
+        ftable.append({"op": far.get(p["op"], p["op"]), "arg": FARPOS if p["op"] in far else p["arg"], "val": p["val"], "res": p["res"],
+                       "a": sorted(p["a"]) + ([FARPOS] if p["fa"] else []), "b": sorted(p["b"]) + ([FARPOS] if p["fb"] else []),
+                       "a2": sorted(p["a2"]) + ([FARPOS + p["shift"]] if p["fa2"] else []),
+                       "b2": sorted(p["b2"]) + ([FARPOS] if p["fb2"] else [])})
+    if len(ftable) < 1000:
+        raise Infra("far-bit transition table too small: %d" % len(ftable))
+    table = table + ftable
     tpath = os.path.join(ctx.scratch, "bitmask_table.ndjson")
     write_ndjson(tpath, table)
 
@@ -46,7 +61,7 @@ def run(ctx):
 
     ntr = len({r["tr"] for r in rows})
     cov = {
-        "states": res.distinct, "transitions": len(table),
+        "states": res.distinct + fres.distinct, "transitions": len(table), "far_bit_transitions": len(ftable),
         "traces_validated_against_impl": ntr,
         "evaluations": summ["evaluations"] + summ["walk_steps"],
         "distinct_nontrivial": len(table),
@@ -60,5 +75,6 @@ def run(ctx):
         "samples": rows[:3] + table[1000:1003],
     }
     return "model_checking", cov, [
-        "bits outside [base, base+W+130) are not scanned",
-        "window W=6 translated to bases 0/60/124; larger masks only through chained walks"]
+        "bits outside [base, base+W+150) are not scanned",
+        "window W=6 translated to bases 0/60/124, plus a window W=4 with one far bit per register (an empty word in between); "
+        "larger masks only through chained walks"]
